@@ -49,6 +49,10 @@ def build(c):
         steps.append(["sub", f"s{i}", ALL if c["suball"][i] else c["type"]])
     if c.get("pub_sub"):
         steps.append(["sub", "p", c["type"]])     # the publisher is a subscriber of its own type
+    if c.get("rehello"):
+        # every subscriber repeats its handshake with the opposite logger flag: ignored, it stays what it was
+        for i in range(k):
+            steps.append(["hello", f"s{i}", {"mod_id": 20 + i, "logger": int(not c["logger"][i]), "v2": bool(i % 2), "v1_after": True}])
     steps.append(["drain"])
     for i in c["rst"]:
         steps += [["close", f"s{i}", "rst"], ["await_closed", f"s{i}"]]
@@ -97,6 +101,8 @@ def gen_cases(tier, seed):
             pub_sub=rng.choice([None, None, None, "ok", "nw"]))
         if rng.random() < 0.15:
             cases[-1].update(mon_all=True, mon_nw=False, logger=[False] * k)
+        if rng.random() < 0.15:
+            cases[-1].update(rehello=True)
     # messages that originate from the manager itself (CLIENT_INFO after CLIENT_SET_NAME / MODULE_READY) and cannot
     # be handed to a subscriber
     for _ in range(300 if tier == "quick" else 6000):
